@@ -4,6 +4,7 @@ import random
 import cmdgen
 import common
 import gdbcheck
+import sessioncheck
 import matchgen
 
 INFO = {
@@ -86,5 +87,12 @@ def prompt_loop(res, rnd):
 
 
 def replay(dis):
+    c = dis.get('input')
+    if isinstance(c, dict) and 'events' in c and 'config' in c:
+        m = common.model_eval('session', [[sessioncheck.mcfg(c['config']), gdbcheck.model_events(c['events'])]], shards=1)[0]
+        r = gdbcheck.compare_case(c, m)
+        print('differences:', r)
+        print('REPRODUCED' if r and r != 'oom' else 'not reproduced on the current tree')
+        return 1 if r and r != 'oom' else 0
     print(dis)
     return 0
